@@ -4,6 +4,9 @@ from ..runner import Spec
 from . import quant_wire as qw
 
 
+REQ_COIN_DEPENDENT = ("continue-updates-diverge", "continue-merge-diverges", "merge-from-restored-diverges")
+
+
 class C09Part(qw.WirePart):
     def generate(self, rng, tier):
         return qw.generate_for(self.fam, qw.ser_op, rng, tier)
@@ -50,6 +53,11 @@ class C09Part(qw.WirePart):
                 continue
             for f in g["fails"]:
                 key, _, detail = f.partition(":")
+                if self.fam == "req" and merged and key in REQ_COIN_DEPENDENT:
+                    # the per-compactor coin is not part of the image and `merge` adopts the other sketch's compaction state
+                    # without its coin (C08 scope, D9): after a merge the next compaction of the restored sketch is not
+                    # determined by the image.  The coin-independent observables are still compared.
+                    continue
                 bad.append(("%s/%s" % (self.fam, key), "%s %s image=%s" % (g["kind"], detail, g["hex"][:80]), i))
         return bad
 
